@@ -13,6 +13,10 @@ from progs import Program
 
 SEED = 1   # set by ./check from --seed / VERIF_SEED
 
+# event kinds that must occur in the enumerated specification behaviours of a check
+NEEDS = {"C01": ("A", "T", "I"), "C03": ("A", "T"), "C04": ("A", "T", "I"), "C05": ("T", "I", "N"),
+         "C06": ("A", "T", "I"), "C07": ("I", "C", "T"), "C08": ("I", "after_error"), "C10": ("A", "T", "C")}
+
 
 from common import REPO as REPO_
 
@@ -142,6 +146,7 @@ def base_coverage(fr, rule):
         "rule": rule,
         "samples": fr.samples,
         "tlc_cmd": tlc.cmd,
+        "spec_events_enumerated": fr.event_coverage,
         "tlc_wall_s": round(tlc.wall, 1),
         "build_wall_s": round(fr.build_wall, 1),
         "run_wall_s": round(fr.run_wall, 2),
@@ -450,6 +455,11 @@ def generic_replay_check(pid, tier, progs, proj, what, rule, ctors=(0,), clone_p
     for f in fr.build_failures:
         out.notes.append("program %d dropped: %s (%s) -- judged by C12" % (
             f["program"], f["kind"], f["message"][:100]))
+    # vacuity guard: the behaviours TLC enumerated must exercise what the property talks about
+    need = NEEDS.get(pid, ())
+    for k_ in need:
+        if fr.event_coverage.get(k_, 0) == 0:
+            raise ToolError("vacuous run: no %r event in any enumerated behaviour of %s" % (k_, pid))
     out.coverage = base_coverage(fr, rule + "; then the real lexers are run freely on seeded random "
                                  "inputs of up to %d characters with random decision scripts and every "
                                  "recorded run is validated by TLC against Trace_RefLexer.tla "
@@ -954,6 +964,18 @@ def check_C09(tier, seed):
     byid = {p.id: p for p in progs}
     fr = replay_family("C09", progs, workers=8 if tier == "quick" else 14,
                        tlc_timeout=700 if tier == "quick" else 3300)
+    # liveness of the reference: every behaviour reaches the final None (under weak fairness)
+    from pipeline import tlc_expected
+    live_progs = progs[:sizes(tier, 12, 60)]
+    import copy as _cp
+    lp = []
+    for q_ in live_progs:
+        q2 = _cp.copy(q_)
+        q2.k = min(q_.k, 3)
+        lp.append(q2)
+    live = tlc_expected("C09_live", lp, workers=8, timeout=1500, cfg="MC_RefLexer_live.cfg")
+    if not live.ok:
+        raise ToolError("RefLexer liveness (Terminates) failed: %s" % live.error)
     out.coverage = base_coverage(
         fr, "programs: seeded random definitions of every kind (several rule sets, empty rule sets, "
             "contexts, `$` rules, all decision menus) + the fixed maximal-munch shapes; part 1: every "
@@ -984,8 +1006,10 @@ def check_C09(tier, seed):
         if not judge("replay:", byid[m["req"]["p"]], m["req"], strip_lx(m["actual"]), False):
             other += 1
     out.coverage["mismatches_outside_projection"] = other
+    out.coverage["spec_liveness_states"] = live.distinct
+    out.coverage["states"] += live.distinct
+    out.coverage["transitions"] += live.states
     if fr.ws is not None:
-        live = [p for b_ in fr.batches for p in b_]
         longn = 20000 if tier == "quick" else 100000
         extra = []
         runs, reqs = trace_part(out, "C09", tier, progs, fr.ws, fr.batches, seed,
